@@ -361,6 +361,19 @@ func CheckC07(c *C07Case, st *Stats) error {
 		if !applied {
 			continue
 		}
+		// Equals is asked FIRST, before anything else reads the changed container (a reader would refresh
+		// whatever the container remembers about earlier lookups); the oracle's snapshot is taken afterwards
+		type verdict struct {
+			ab, ba     bool
+			p1, p2     any
+			pan1, pan2 bool
+		}
+		first := make([]verdict, len(trees))
+		for j := 1; j < len(trees); j++ {
+			v := &first[j]
+			v.ba, v.p2, v.pan2 = eq2(impl[j], impl[0])
+			v.ab, v.p1, v.pan1 = eq2(impl[0], impl[j])
+		}
 		nowA, err := Snap(impl[0])
 		if err != nil {
 			return err
@@ -368,8 +381,8 @@ func CheckC07(c *C07Case, st *Stats) error {
 		st.Count("recompared_after." + m.Op)
 		for j := 1; j < len(trees); j++ {
 			want := EqV(nowA, trees[j])
-			ab, p1, pan1 := eq2(impl[0], impl[j])
-			ba, p2, pan2 := eq2(impl[j], impl[0])
+			ab, p1, pan1 := first[j].ab, first[j].p1, first[j].pan1
+			ba, p2, pan2 := first[j].ba, first[j].p2, first[j].pan2
 			if pan1 || pan2 {
 				return errf("Equals panicked after a %s on a nested container of a: %v %v", m.Op, p1, p2)
 			}
